@@ -222,7 +222,7 @@ pub fn run(ctx: &mut Ctx) {
                 non-trivial = >=2 declared bounds, a split declaration, or module fns with different bounds (every case has probes expected true and probes expected false); distinct = distinct program text"
         .into();
     ctx.assumptions.push("`'static` cannot be probed at run time (trait selection ignores lifetimes); mock derivations stay un-exported (inert) here, C10/C11 observe the mock type".into());
-    let n = ctx.n(400, 6000) as usize;
+    let n = ctx.n(1500, 12000) as usize;
     for feature_unimock in [false, true] {
         let tapes = crate::drive::gen_tapes(ctx.seed, 400 + feature_unimock as u64, n, TAPE_LEN);
         let mut batch = Batch::new(&format!("c04-{}", if feature_unimock { "unimock" } else { "plain" }), Opts { feature_unimock, members: 16, ..Default::default() });
